@@ -246,6 +246,9 @@ def main():
         L += u['extra']
         open(os.path.join(OUT, u['name'] + '.vspec'), 'w').write('\n'.join(L) + '\n')
     print(len(units), 'contract files written')
+    # the decl anchors (rename tracking) of the regenerated files
+    import subprocess, sys
+    subprocess.call([sys.executable, os.path.join(VERIF, 'tools', 'mkdecls.py')], stdout=subprocess.DEVNULL)
     return units
 
 
